@@ -53,8 +53,8 @@ def toks (sh : Shared) : Expr → Bool → Option BinOp → List Tok
   | .not a, paren, _ => (if paren then [.lp] else []) ++ [.not] ++ toks sh a true none ++ (if paren then [.rp] else [])
   | .dot a f, _, _ => toks sh a true none ++ [.dot, .id f]
   | .group a f, _, _ => toks sh a true none ++ [.bslash, .id f]
-  | .index a i, _, _ => toks sh a true none ++ [.lb] ++ toks sh i false none ++ [.rb]
-  | .range a i j, _, _ => toks sh a true none ++ [.lb] ++ toks sh i false none ++ [.colon] ++ toks sh j false none ++ [.rb]
+  | .index a i, _, _ => toks sh a true none ++ [.lb] ++ toks sh i (indexParen i) none ++ [.rb]
+  | .range a i j, _, _ => toks sh a true none ++ [.lb] ++ toks sh i (indexParen i) none ++ [.colon] ++ toks sh j (indexParen j) none ++ [.rb]
   | .query v s c, _, _ =>
     [.kw "QUERY", .lp, .id v, .allIn] ++ toks sh s true none ++ [.bar] ++ toks sh c true none ++ [.rp]
   | .call f args, _, _ => [.id f, .lp] ++ argToks sh args true ++ [.rp]
